@@ -6,15 +6,21 @@ From Coq Require Import ExtrOcamlBasic.
 From Lox Require Import Rang3.RangeModel Rang3.ClassModel.
 From Lox Require Import Parse.Grammar Parse.Tables Parse.ParseRuntime Parse.Validator Parse.Actions.
 From Lox Require Import Lex.LexRuntime Lex.LexAuto Lex.NfaRef Lex.LexEquiv Lex.RegexRef.
-From Lox Require Import Gen.TableEnc Gen.Numbering Gen.FirstModel Gen.ResolveModel Gen.LALRRef Gen.PrecClimb Gen.Binding Gen.Analyze.
+From Lox Require Import Gen.TableEnc Gen.Numbering Gen.FirstModel Gen.ResolveModel Gen.LALRRef Gen.PrecClimb Gen.Binding Gen.Analyze Gen.NormalizeModel.
+From Lox Require Import Lex.Utf8Model.
 
 (* stable names for functions whose short names clash between modules *)
+Definition x_range_normalize := RangeModel.normalize.
 Definition x_table_build := TableEnc.build.
 Definition x_table_build_u := TableEnc.build_u.
+Definition x_sugar_normalize := NormalizeModel.normalize_flat.
+Definition x_sugar_wf := NormalizeModel.wf_sgrammarb.
+Definition x_utf8_decode_all := Utf8Model.decode_all.
+Definition x_utf8_encode_rune := Utf8Model.encode_rune.
 
 Extraction Language OCaml.
 Extraction "loxmodel_ext.ml"
-  flatten_log flatten subtract normalize replay heap_of
+  flatten_log flatten subtract x_range_normalize replay heap_of
   get_ranges class_items unescape
   find parse validate eval reductions action_of goto_of
   check_arrays check_kinds check_sprime check_nullable_first check_init check_items check_rows
@@ -28,4 +34,5 @@ Extraction "loxmodel_ext.ml"
   resolve cell_conflict resolved_cell lalr_ref has_conflicts cell_at find_state_by_core
   climb climb_out_of_fuel well_grouped uniformb
   assign_actions wf_input shape_okb rule_generated rule_from_method cast param_value
-  analyze well_formed well_formed_weak.
+  analyze well_formed well_formed_weak
+  x_sugar_normalize x_sugar_wf x_utf8_decode_all x_utf8_encode_rune.
